@@ -157,6 +157,8 @@ def generate_cases(ctx, stage):
                 cases.append(json.loads(raw))
         log("  gen %-22s %-8s rc=%d states=%d distinct=%d cases=%d  %.1fs" %
             (r["cfg"], mode, rc, gs, gd, len(cases) - n0, time.time() - t0))
+        if rc == 150 or any("Parsing or semantic analysis failed" in e for e in errs):
+            raise Infra("TLC could not parse %s: %s" % (r["module"], " | ".join(e.strip()[:300] for e in errs[:2])))
         if errs and not r.get("expect_violation"):
             # an invariant violation of the DESIGN model (or a TLC failure)
             ctx["design_errors"].append({"cfg": r["cfg"], "errors": errs[:3]})
@@ -176,6 +178,9 @@ def generate_cases(ctx, stage):
 
 def sample_cases(ctx, stage, cases):
     lim = stage.get("sample", {}).get(ctx["tier"])
+    gexp = stage.get("group_expand")
+    if gexp:
+        cases = gexp(cases, ctx)
     exp = stage.get("expand")
     if exp:
         out = []
@@ -330,15 +335,23 @@ def run_stage(ctx, stage):
     if not cases:
         raise Infra("stage %s produced no cases" % stage.get("name", "main"))
     byid = {c["id"]: c for c in cases}
+    r2c = stage.get("run_to_case", lambda r: r)
     st, cpath = drive(ctx, stage, cases, stage.get("name", "main"))
-    ctx["evaluations"] += st["runs"]
+    ctx["evaluations"] += st.get("counter", {}).get(stage.get("eval_key", ""), st["runs"])
     ctx["cases_generated"] += ncases_total
     for k, v in st.get("counter", {}).items():
         ctx["counter"][k] = ctx["counter"].get(k, 0) + v
     if st["hangs"]:
         ctx["hangs"] += st["hangs"]
     bad, crashes = validate(ctx, stage, st["shards"], stage.get("name", "main"))
-    ctx["traces"] += st["runs"]
+    other = [b for b in bad if not b["inv"].startswith(prop + "_")]
+    bad = [b for b in bad if b["inv"].startswith(prop + "_")]
+    if other:
+        kinds = sorted({b["inv"] for b in other})
+        ctx["other_property_failures"] = ctx.get("other_property_failures", 0) + len(other)
+        log("  NOTE: %d runs failed predicates of OTHER properties (%s) - reported by their own checks, not here" %
+            (len(other), ", ".join(kinds)))
+    ctx["traces"] += st.get("counter", {}).get(stage.get("eval_key", ""), st["runs"])
     ctx["crashes"] += len(crashes)
     # samples for the evidence file
     if len(ctx["samples"]) < 3:
@@ -350,7 +363,7 @@ def run_stage(ctx, stage):
             bad.append({"run": c["run"], "inv": "C01_NoCrash", "class": c.get("ev", "Panic")})
     elif crashes:
         log("  NOTE: %d runs crashed (panic/hang) - reported by the C01 check, not judged here; e.g. case %s" %
-            (len(crashes), json.dumps(byid.get(crashes[0]["run"]))[:300]))
+            (len(crashes), json.dumps(byid.get(r2c(crashes[0]["run"])))[:300]))
     if not bad:
         return
     # ---- reproduce every failed run in a fresh process, then classify
@@ -361,9 +374,10 @@ def run_stage(ctx, stage):
     for (inv, cls), bs in sorted(groups.items()):
         bs = sorted(bs, key=lambda b: b["run"])
         probe = bs[: stage.get("repro_limit", 12)]
-        rcases = [dict(byid[b["run"]]) for b in probe]
+        rcases = list({r2c(b["run"]): dict(byid[r2c(b["run"])]) for b in probe}.values())
         rst, _ = drive(ctx, stage, rcases, "repro")
         rbad, rcr = validate(ctx, stage, rst["shards"], "repro")
+        rbad = [b for b in rbad if b["inv"].startswith(prop + "_")]
         if stage.get("crash_is_violation"):
             for c in rcr:
                 rbad.append({"run": c["run"], "inv": "C01_NoCrash", "class": c.get("ev", "Panic")})
@@ -377,7 +391,7 @@ def run_stage(ctx, stage):
             continue
         b0 = confirmed[0]
         fd = next((f for f in known if finding_matches(f, prop, b0)), None)
-        case = byid[b0["run"]]
+        case = byid[r2c(b0["run"])]
         if fd is not None:
             msg = "KNOWN-FINDING: property=%s %s [%s/%s] %d runs, e.g. case %s" % (
                 prop, fd.get("what", ""), inv, cls, len(bs), json.dumps(case, separators=(",", ":"))[:200])
